@@ -274,7 +274,15 @@ pub fn run_app(ctx: &Ctx) {
             args.push(recorder.to_string_lossy().into_owned());
             args.push(cdir.to_string_lossy().into_owned());
         }
+        let clock = || {
+            use chrono::Datelike;
+            let n = chrono::Utc::now();
+            (n.year(), n.ordinal())
+        };
+        let clock_before = clock();
         let res = run_samedec(&args, if via_stdin { Some(&raw) } else { None }, Duration::from_secs(120));
+        let clock_after = clock();
+        let mut env_ops: Vec<(String, String)> = vec![];
         let label = format!("app.{}.rate{}.q{}.c{}.v{}.stdin{}", rec.label, rate, quiet as u8, with_child as u8, verbose, via_stdin as u8);
         // children as recorded
         let mut kids: Vec<String> = vec![];
@@ -298,6 +306,20 @@ pub fn run_app(ctx: &Ctx) {
             let ok = bin.len() % 2 == 0 && expect == bin;
             kids.push(format!("S{}:{}:{}{}", hex(msg.as_bytes()), from, to, if ok { "" } else { ":BADBYTES" }));
             envs.push(env.lines().map(|l| hex(l.as_bytes())).collect::<Vec<_>>().join("/"));
+            // the environment against the spawner model: needs the UTC (year, day of year) samedec saw;
+            // skipped (and counted) if the date changed while samedec ran
+            if clock_before == clock_after {
+                let mut pairs: Vec<(String, String)> = env
+                    .lines()
+                    .filter_map(|l| l.split_once('='))
+                    .map(|(k, v)| (k.to_owned(), v.to_owned()))
+                    .collect();
+                pairs.sort_by(|a, b| a.0.as_bytes().cmp(b.0.as_bytes()));
+                let imp = pairs.iter().map(|(k, v)| format!("{}={}", k, hex(v.as_bytes()))).collect::<Vec<_>>().join(",");
+                env_ops.push((format!("app.env {} {} {} {}", hex(msg.as_bytes()), hex(rate.to_string().as_bytes()), clock_before.0, clock_before.1), imp));
+            } else {
+                out.count("env_skipped_date_changed");
+            }
             k += 1;
         }
         let minput = model_input(&rec, &live, &flushed);
@@ -309,6 +331,10 @@ pub fn run_app(ctx: &Ctx) {
             res.status.map(|c| c.to_string()).unwrap_or_else(|| if res.timed_out { "TIMEOUT".to_owned() } else { "signal".to_owned() })
         );
         out.op(&op, &imp, true);
+        for (op, imp) in &env_ops {
+            out.op(op, imp, true);
+            out.count("env_ops");
+        }
         out.spec(&format!("spec.c11 [{}] {} quiet={} => {}", label, minput, quiet as u8, stdout_toks(&res.stdout)));
         if with_child {
             out.spec(&format!(
